@@ -175,7 +175,43 @@ NA = {
 }
 
 
+# clauses added by the second-generation rules (effects engine, universality, resolved normal form, interpretation); appended to the texts
+ADD = {
+    "C01": "Apply-to-all loops of residual assembly and per-unit conversion have no early exit, no bypassing return, no value leaking between iterations.",
+    "C02": "The runtime helpers called by generated code (thirdparty/npfunc) are pure (no shared state, output buffers allocated per call); an already "
+           "imported pycode package is reloaded before use.",
+    "C03": "Universality of the Jacobian assembly loops (including the return that would bypass them).",
+    "C04": "The clipping of the step is decided by interpreting calc_h on every ordering of (proposed step, time to tf, time to the next event): "
+           "h == max(min(...), 0).",
+    "C05": "Equations switched on dae_t (PQ) give the same injection in their power-flow and time-domain forms at the hand-over point (symbolic).",
+    "C06": "Exactness typing: times that are later compared with == are copied into the clock (recorded cut time), not recomputed as t + (target - t).",
+    "C08": "The Jacobians are re-evaluated on every path from EIG.run to calc_As (call graph to System.j_update); swap targets of the reordering are "
+           "filtered against the zero-time-constant states (dataflow, any idiom); the setter used by sweep writes dae.Tf unconditionally.",
+    "C09": "Delay / Average / Derivative / Sampling are interpreted over every ADVANCE/REPEAT/REWIND call pattern up to 5 (6) calls on symbolic samples "
+           "and compared with their definitions on the accepted history.",
+    "C10": "Any np.arange/+/* allocation is abstracted to an arithmetic progression (violations need a concrete non-tiling witness); positional reads of "
+           "borrowed parameters only without an indexer.",
+    "C11": "Group.set delegates to Model.set; DAE.reset returns to the constructed state (all counters of the array/counter table, time sentinel); "
+           "parameters borrowed from per-unit-flagged sources are re-linked after the conversion; dae.Tf/Teye writes are unconditional and cover every state.",
+    "C12": "Dataflow of bus-off propagation: not-found sentinel filtered element-wise, pending changes accumulated, all-matches lookup merges every model; "
+           "slack counter per island; the re-check after events is gated by nothing but event-fired and check_conn.",
+    "C13": "MATPOWER text reader: the section-end regex cannot swallow a data row; conditional exports; record loops carry no value from one record to the next.",
+    "C14": "Effect analysis over the resolved call graph: load_ss / fix_view_arrays / init_resume write no array content (init_resume: only the clock).",
+    "C15": "Nothing that writes x/y/t runs between the acceptance of a step and dae.store() (effect analysis); csv replay: row pointer and clock advance "
+           "together; cached views are refreshed by their readers on the off-load path; header and body of the csv export share one index list.",
+    "C17": "The convergence measure is NaN-propagating (no builtin max/min, fmax, nanmax on the residual slice); exit code is only ever added to; module entry "
+           "point propagates the exit status; EIG refuses a system without states on every path.",
+    "C18": "Blocks elaborated with numeric time constants: the number reaches State.t_const.",
+    "C19": "BackRef reset is unconditional; universality of the reference-collection loops.",
+    "C20": "Cached dict view is refreshed by the readers that validate or export; the rc parser object is fresh per load; options overwrite the file "
+           "unconditionally; nothing but the name (and the user dictionary) is passed to Config() before load().",
+}
+
+
 def main():
+    for pid, extra in ADD.items():
+        if pid in CLAIMED and extra not in CLAIMED[pid]["text"]:
+            CLAIMED[pid]["text"] = CLAIMED[pid]["text"] + " Second generation: " + extra
     props = [json.loads(l) for l in open(os.path.join(HERE, "properties.jsonl"))]
     checks = []
     na = []
@@ -212,8 +248,10 @@ def main():
         },
         "engines": [
             {"name": "vcheck", "path": "vcheck", "serves_properties": sorted(CLAIMED),
-             "kind_free_text": "static analysis: stdlib ast + hand-built statement CFG (networkx) + structural AST patterns; "
-                               "DSL front-ends + sympy normal forms for the embedded equation language and generated code"},
+             "kind_free_text": "static analysis: stdlib ast + hand-built statement CFG (networkx) + structural AST patterns over a resolved "
+                               "normal form (alias copy propagation, rename-back of locals); effect analysis over a receiver-resolved call graph; "
+                               "DSL front-ends + sympy normal forms for the embedded equation language and generated code; small abstract "
+                               "interpreters (order types, call-order patterns) reading the AST"},
         ],
         "checks": checks,
         "not_applicable": na,
